@@ -41,34 +41,45 @@ WHOLERUN_PRESENT = importlib.util.find_spec("harness.wholerun") is not None
 # ------------------------------------------------------------------------------------------------
 # case generation (everything from the case rng; a case replays from (world_seed, case_seed))
 # ------------------------------------------------------------------------------------------------
-def gen_case(world, crng):
+def gen_case(world, crng, exact=True):
+    """exact=False: the unsnapped / off-grid variant (oracle only): decimal rates and MDLs whose float
+    sums round, real normal / uniform draws, a sample column with values like -100.0000001"""
     from harness.adapters import sensor as S
 
     n_days = crng.randint(2, 6)
     n_em = crng.choice([0, 1, 2, 4, 6, 9, 14])
+    rates = S.RATES if exact else S.OFFGRID_RATES
     plan = []
     for _ in range(n_em):
         plan.append((crng.randrange(8), crng.randrange(8), crng.randrange(8), crng.randrange(8),
-                     crng.randint(-2, n_days), crng.choice(S.RATES)))
+                     crng.randint(-2, n_days), crng.choice(rates)))
     rate_sums = sorted({sum(p[5] for p in crng.sample(plan, crng.randint(1, min(3, len(plan)))))
                         for _ in range(4)}) if plan else []
+    if not exact:
+        # the decimal the float sum approximates (e.g. 0.6 for 0.1 + 0.2 + 0.3 = 0.6000000000000001)
+        rate_sums = sorted(set(rate_sums) | {round(x, 6) for x in rate_sums})
     surveys = []
     for d in range(n_days):
         for _ in range(crng.choice([1, 1, 2, 3])):
             name = crng.choice(world.names)
             si = crng.randrange(8)
             override = None
-            if crng.random() < 0.8:
-                mdl = crng.choice(rate_sums) if (rate_sums and crng.random() < 0.55) else crng.choice(MDL_GRID)
+            if crng.random() < (0.8 if exact else 0.95):
+                grid = MDL_GRID if exact else [0.0, 0.01, 0.1, 0.3, 0.6, 1.0 / 3.0, 1.1, 2.5, 1e9]
+                mdl = crng.choice(rate_sums) if (rate_sums and crng.random() < 0.55) else crng.choice(grid)
                 qtype = crng.choice(["default", "uniform", "sample"])
                 if qtype == "sample":
-                    qp = [S.QE_FILE, crng.choice(sorted(S.QE_COLUMNS))]
-                else:
+                    cols = sorted(S.QE_COLUMNS) if exact else sorted(S.QE_COLUMNS) + sorted(S.QE_COLUMNS_OFFGRID) * 3
+                    qp = [S.QE_FILE, crng.choice(cols)]
+                elif exact:
                     lo = crng.choice(SHIFTS)
                     qp = [lo, lo + crng.choice([0.0, 0.0, 25.0, 75.0])]
+                else:
+                    lo = crng.choice([-180.0, -120.0, -100.0, -99.0, -40.0, 0.0, 10.0])
+                    qp = [lo, lo + crng.choice([0.0, 1.0, 12.5, 40.0, 120.0])]
                 override = (mdl, qtype, qp)
             surveys.append((d, name, si, override))
-    return {"plan": plan, "days": n_days, "surveys": surveys}
+    return {"plan": plan, "days": n_days, "surveys": surveys, "exact": exact}
 
 
 def run_case(world, case, case_seed):
@@ -87,9 +98,11 @@ def run_case(world, case, case_seed):
                 continue
             info = None if override is None else S.sensor_info_variant(world, name, *override)
             mm, code = S.make_method(world, name, info)
-            req, rep, res = S.run_survey(scene, mm, code, si % len(scene.sites), d, crng)
+            req, rep, res = S.run_survey(scene, mm, code, si % len(scene.sites), d, crng,
+                                         model=case.get("exact", True))
             res.scene = scene
             res.override = override
+            res.exact = case.get("exact", True)
             out.append((req, rep, res))
         scene.day_end()
     return out
@@ -104,7 +117,8 @@ def oracle_survey(ctx, res, inp):
     scene, rec, report = res.scene, res.rec, res.report
     name, code, si, mdl = res.name, res.code, res.si, Fraction(float(res.mdl))
     facts = {"n_vis": 0, "hidden_spatial": 0, "hidden_off": 0, "hidden_temporal": 0, "hidden_inactive": 0,
-             "detected_units": 0, "undetected_nonzero_units": 0, "at_mdl": 0}
+             "detected_units": 0, "undetected_nonzero_units": 0, "at_mdl": 0, "shift_below_minus_100": False,
+             "shift_just_above_minus_100": False, "rounded_sum": False}
 
     def V(sig, what, extra=None):
         d = dict(inp)
@@ -166,6 +180,20 @@ def oracle_survey(ctx, res, inp):
               "get_detectable_emissions returned an emission the method cannot see (" + why + ")",
               {"emission": n, "cov": cov_after, "emitting": emitting, "temporal": t})
 
+    # exact grid: eps = 0.  Unsnapped pass: the code's float sums of n non-negative terms are within
+    # a relative n * 2^-52 of the exact rational sums; a clause is reported only when it fails for every
+    # value in that enclosure ("definitely below" / "definitely at or above"), and additionally on the
+    # very floats the code compared.
+    exact = getattr(res, "exact", True)
+    eps = Fraction(0) if exact else Fraction(len(res.before) + 2, 2 ** 52)
+    mdl_f = float(res.mdl)
+
+    def below(vr):          # definitely below the MDL
+        return vr * (1 + eps) < mdl
+
+    def reaches(vr):        # definitely at or above the MDL
+        return vr * (1 - eps) >= mdl
+
     def vrate(pred):
         tot = Fraction(0)
         for (n, _) in res.before:
@@ -175,39 +203,56 @@ def oracle_survey(ctx, res, inp):
 
     scale_name = {"c": "component", "g": "equipment-group", "s": "site"}[code]
 
-    def check_unit(label, true_rep, meas_rep, vr, predicted):
+    def check_unit(label, true_rep, meas_rep, vr, predicted, unit_rec=None):
         m = Fraction(float(meas_rep))
+        tf = float(true_rep)
         if m < 0:
             V("C05:measured:negative", "negative measured rate at " + scale_name + " scale",
               {"unit": label, "measured": float(meas_rep)})
-        if m != 0 and vr < mdl:
+        if m != 0 and (below(vr) or tf < mdl_f):
             V("C05:mdl:nonzero-measured-below-mdl:" + scale_name,
               "non-zero measured rate although the summed true rate of the visible emissions of the unit is below the MDL",
-              {"unit": label, "measured": float(meas_rep), "visible_rate": float(vr), "mdl": float(mdl)})
+              {"unit": label, "measured": float(meas_rep), "visible_rate": float(vr), "reported_true": tf,
+               "mdl": float(mdl)})
         if vr == 0 and m != 0:
             V("C05:measured:nonzero-with-nothing-visible", "non-zero measured rate although nothing is visible",
               {"unit": label, "measured": float(meas_rep)})
-        if Fraction(float(true_rep)) != vr:
+        if abs(Fraction(tf) - vr) > eps * vr:
             V("C05:scale:reported-true-rate-differs-from-visible-rate:" + scale_name,
               "the unit's reported true rate is not the summed rate of its visible emissions",
-              {"unit": label, "reported": float(true_rep), "visible_rate": float(vr)})
+              {"unit": label, "reported": tf, "visible_rate": float(vr)})
         if predicted is not None:
-            if predicted and vr < mdl:
+            if predicted and (below(vr) or tf < mdl_f):
                 V("C05:mdl:quantified-below-mdl:" + scale_name, "predictor consulted for a unit below the MDL",
-                  {"unit": label, "visible_rate": float(vr), "mdl": float(mdl)})
-            if not predicted and vr >= mdl:
+                  {"unit": label, "visible_rate": float(vr), "reported_true": tf, "mdl": float(mdl)})
+            if not predicted and (reaches(vr) if exact else tf >= mdl_f):
                 V("C05:threshold:rate-at-or-above-mdl-not-detected:" + scale_name,
                   "threshold sensor did not detect a unit whose visible rate is at or above the MDL",
-                  {"unit": label, "visible_rate": float(vr), "mdl": float(mdl)})
+                  {"unit": label, "visible_rate": float(vr), "reported_true": tf, "mdl": float(mdl)})
             if not predicted and m != 0:
                 V("C05:measured:nonzero-when-not-detected", "non-zero measured rate for an undetected unit",
                   {"unit": label, "measured": float(meas_rep)})
+            if predicted and unit_rec is not None and unit_rec["predict"][1] is not None:
+                # the quantification formula on the recorded shift, same IEEE operations as the predictors
+                inp_rate, shift, out = unit_rec["predict"]
+                want = max(inp_rate * (1 + (shift / 100)), 0)
+                if not (float(out) == float(want) and float(meas_rep) == float(want) and float(inp_rate) == tf):
+                    V("C05:measured:differs-from-quantification-of-unit-rate:" + scale_name,
+                      "measured rate is not max(unit true rate * (1 + shift/100), 0) for the drawn shift",
+                      {"unit": label, "true": tf, "predictor_input": float(inp_rate), "shift": float(shift),
+                       "measured": float(meas_rep), "expected": float(want)})
+                if float(shift) < -100:
+                    facts["shift_below_minus_100"] = True
+                if -100 < float(shift) < -99.99:
+                    facts["shift_just_above_minus_100"] = True
             if predicted:
                 facts["detected_units"] += 1
             elif vr > 0:
                 facts["undetected_nonzero_units"] += 1
-            if vr == mdl and vr > 0:
+            if vr > 0 and (vr == mdl if exact else abs(vr - mdl) <= 4 * eps * vr):
                 facts["at_mdl"] += 1
+            if not exact and vr > 0 and Fraction(tf) != vr:
+                facts["rounded_sum"] = True
 
     tested = res.tested
     any_unit_ok = False
@@ -220,9 +265,10 @@ def oracle_survey(ctx, res, inp):
                 vr = vrate(lambda p, g=g, c=c: p[0] == si and p[1] == g and p[2] == c)
                 comp_rate[(g, c)] = vr
                 pred = tested[k]["predict"] is not None if k < len(tested) else None
+                urec = tested[k] if k < len(tested) else None
                 k += 1
-                check_unit(f"{g}/{c}", cr.true_rate, cr.measured_rate, vr, pred)
-                any_unit_ok = any_unit_ok or vr >= mdl
+                check_unit(f"{g}/{c}", cr.true_rate, cr.measured_rate, vr, pred, urec)
+                any_unit_ok = any_unit_ok or not below(vr)
             if Fraction(float(er.measured_rate)) < 0:
                 V("C05:measured:negative", "negative equipment-group total", {"unit": er.equipment_group})
     elif code == "g":
@@ -230,14 +276,15 @@ def oracle_survey(ctx, res, inp):
             g = er.equipment_group
             vr = vrate(lambda p, g=g: p[0] == si and p[1] == g)
             pred = tested[k]["predict"] is not None if k < len(tested) else None
+            urec = tested[k] if k < len(tested) else None
             k += 1
-            check_unit(g, er.true_rate, er.measured_rate, vr, pred)
-            any_unit_ok = any_unit_ok or vr >= mdl
+            check_unit(g, er.true_rate, er.measured_rate, vr, pred, urec)
+            any_unit_ok = any_unit_ok or not below(vr)
     site_vr = vrate(lambda p: p[0] == si)
     if code == "s":
         pred = tested[0]["predict"] is not None if tested else None
-        check_unit("site", report.site_true_rate, report.site_measured_rate, site_vr, pred)
-        any_unit_ok = site_vr >= mdl
+        check_unit("site", report.site_true_rate, report.site_measured_rate, site_vr, pred, tested[0] if tested else None)
+        any_unit_ok = not below(site_vr)
         if report.equipment_groups_surveyed:
             pass
     sm = Fraction(float(report.site_measured_rate))
@@ -247,7 +294,7 @@ def oracle_survey(ctx, res, inp):
         V("C05:mdl:nonzero-measured-below-mdl:site-total",
           "non-zero site measured rate although no unit of the method's scale reaches the MDL",
           {"measured": float(sm), "mdl": float(mdl)})
-    if Fraction(float(report.site_true_rate)) != site_vr:
+    if abs(Fraction(float(report.site_true_rate)) - site_vr) > eps * site_vr:
         V("C05:scale:reported-true-rate-differs-from-visible-rate:site-total",
           "site true rate of the report is not the summed rate of the visible emissions",
           {"reported": float(report.site_true_rate), "visible_rate": float(site_vr)})
@@ -256,7 +303,7 @@ def oracle_survey(ctx, res, inp):
         if code != "c":
             V("C05:tag:non-component-scale-method-tags", "a method that is not component-scale tagged a component",
               {"tag": [g, c]})
-        elif comp_rate.get((g, c), Fraction(-1)) < mdl:
+        elif below(comp_rate.get((g, c), Fraction(-1))) or (g, c) not in comp_rate:
             V("C05:tag:component-below-mdl-tagged",
               "tag request for a component whose visible rate is below the MDL",
               {"tag": [g, c], "visible_rate": float(comp_rate.get((g, c), -1)), "mdl": float(mdl)})
@@ -268,7 +315,7 @@ def oracle_survey(ctx, res, inp):
             V("C05:tag:emission-outside-tagged-component-tagged",
               "tag reached an emission that is not an active emission of a tagged component", {"emission": n})
     for n in rec.sensor_records:
-        if not truth.get(n) or site_vr < mdl:
+        if not truth.get(n) or below(site_vr):
             V("C05:record:detection-record-for-invisible-emission",
               "sensor wrote a detection record for an emission it cannot see / below the MDL", {"emission": n})
     # -- hypotheses of C05_zero_coverage_is_baseline / C05_unreachable_mdl_is_baseline evaluated on the
@@ -278,7 +325,7 @@ def oracle_survey(ctx, res, inp):
                    for n in in_scope)
     total = sum((Fraction(float(scene.em_obj[n].get_rate())) for (n, _) in res.before if scene.em_place[n][0] == si),
                 Fraction(0))
-    unreachable = mdl > total
+    unreachable = mdl > total * (1 + eps)
     quiet = sm == 0 and not rec.tags and not rec.sensor_records and not rec.tagged
     facts["hyp_zero_cov"] = bool(zero_cov and in_scope)
     facts["hyp_unreachable"] = bool(unreachable and in_scope)
@@ -315,22 +362,27 @@ def component_stage(ctx):
                     p["measurement_scale"], p["coverage"]["spatial"], p["coverage"]["temporal"],
                     p["sensor"]["quantification_error"]["quantification_type"]))
             lines, expected, metas = [], [], []
-            for _ in range(n_cases):
+            for ci in range(n_cases):
                 case_seed = ctx.rng.randrange(1 << 30)
-                case = gen_case(world, random.Random(case_seed))
+                exact = (ci % 5) != 4          # every fifth scene: unsnapped / off-grid, oracle only
+                case = gen_case(world, random.Random(case_seed), exact=exact)
                 results = run_case(world, case, case_seed)
-                lines.append("reset")
-                expected.append("ok")
-                metas.append(None)
+                if exact:
+                    lines.append("reset")
+                    expected.append("ok")
+                    metas.append(None)
                 for idx, (req, rep, res) in enumerate(results):
-                    inp = {"stage": "component", "world_seed": world_seed, "case_seed": case_seed,
+                    inp = {"stage": "component", "world_seed": world_seed, "case_seed": case_seed, "exact": exact,
                            "survey_index": idx, "method": res.name, "scale": res.code, "site_index": res.si,
                            "day": res.day, "mdl": float(res.mdl), "override": res.override,
                            "request": req, "impl": rep}
                     facts = oracle_survey(ctx, res, inp)
-                    lines.append(req)
-                    expected.append(rep)
-                    metas.append((inp, res, facts))
+                    if exact:
+                        lines.append(req)
+                        expected.append(rep)
+                        metas.append((inp, res, facts))
+                    else:
+                        unsnapped_bookkeeping(ctx, res, facts)
                 ctx.traces += 1
             replies = drv.run(lines)
             for ml, il, meta in zip(replies, expected, metas):
@@ -373,36 +425,153 @@ def component_stage(ctx):
             world.cleanup()
 
 
+def unsnapped_bookkeeping(ctx, res, facts):
+    ctx.evaluations += 1
+    ctx.count("unsnapped:surveys")
+    qtype = res.override[1] if res.override else scene_qtype(res)
+    ctx.count("unsnapped:scale-x-predictor:%s:%s" % (res.code, qtype))
+    for kf in ("detected_units", "undetected_nonzero_units", "at_mdl", "shift_below_minus_100",
+               "shift_just_above_minus_100", "rounded_sum", "hidden_spatial", "hidden_off", "hidden_temporal"):
+        if facts.get(kf):
+            ctx.count("unsnapped:surveys-with:" + kf)
+    if res.rec.tags:
+        ctx.count("unsnapped:surveys-with:tags")
+    if facts["n_vis"] or facts["hidden_spatial"] or facts["hidden_off"] or facts["hidden_temporal"]:
+        ctx.nontrivial.add(("unsnapped", res.code, qtype, min(facts["n_vis"], 3), min(facts["detected_units"], 2),
+                            min(facts["undetected_nonzero_units"], 2), facts["at_mdl"] > 0,
+                            bool(facts["shift_below_minus_100"]), bool(facts["rounded_sum"]), bool(res.rec.tags)))
+
+
 def scene_qtype(res):
     return res.scene.world.methods[res.name]["sensor"]["quantification_error"]["quantification_type"]
 
 
+SIG_FLAG_INST = "C05:flag:zero-measured-site-enters-follow-up:instant-threshold<=0"
+SIG_FLAG_STAT = "C05:flag:zero-measured-site-enters-follow-up:stationary-small-window-threshold<=0"
+
+
 def flag_stage(ctx):
-    """real SiteLevelMethod.update_mobile (site not yet in processing) vs the model's flagCandidate"""
+    """real SiteLevelMethod.update_mobile (site not yet in processing) vs `flagCandidate`, and the real
+    stationary SiteLevelMethod.update on the first record of a site vs `flagStationaryFresh`.  The grids
+    include the region excluded by the hypotheses of C05_flag_needs_detection(_stationary) (instant /
+    small-window threshold <= 0): counted as hypothesis misses; a flag with measured rate 0 there is the
+    known finding, anywhere else a new violation."""
     from harness.adapters import sensor as S
 
     world = S.build_world(random.Random(ctx.rng.randrange(1 << 30)))
+    hits = {"mobile": [0, 0], "stationary": [0, 0]}
     try:
         site = world.fresh()._sites[0]
         grid = [0.0, 0.125, 0.5, 1.0, 2.0, 8.0]
-        cases = [(inst, thr, m) for inst in [None, 0.5, 2.0, 8.0] for thr in grid for m in grid]
+        cases = [(inst, thr, m) for inst in [None, 0.5, 2.0, 8.0, 0.0, -1.0] for thr in grid for m in grid]
         lines = []
         for (inst, thr, m) in cases:
             lines.append("flag %s %d %d" % ("-" if inst is None else S.to_units(inst, S.SCALE * 100),
                                             S.to_units(thr, S.SCALE * 100), S.to_units(m, S.SCALE * 100)))
+        scases = [(st, lg, m) for st in [0.0, 0.125, 1.0, -0.5] for lg in [None, 0.0, 2.0] for m in grid]
+        for (st, lg, m) in scases:
+            lines.append("flags %d %d" % (S.to_units(st, S.SCALE * 100), S.to_units(m, S.SCALE * 100)))
         replies = core.LeanDriver("drv_sensor").run(lines)
-        for c, ml in zip(cases, replies):
+        for c, ml in zip(cases, replies[:len(cases)]):
             il = "1" if S.flag_decision(site, *c) else "0"
             ctx.evaluations += 1
-            ctx.count("flag-decisions")
+            ctx.count("flag-decisions:mobile")
+            hyp = c[0] is None or c[0] > 0
+            hits["mobile"][0 if hyp else 1] += 1
             if il != ml:
                 ctx.disagree("sensor.flag", {"stage": "flag", "inst": c[0], "thr": c[1], "measured": c[2]}, ml, il)
             if il == "1" and c[2] == 0:
-                ctx.violate("C05:flag:site-with-zero-measured-rate-enters-follow-up",
+                ctx.violate("C05:flag:site-with-zero-measured-rate-enters-follow-up" if hyp else SIG_FLAG_INST,
                             "a site with measured rate 0 became a follow-up candidate",
                             {"stage": "flag", "inst": c[0], "thr": c[1], "measured": c[2]})
+        for c, ml in zip(scases, replies[len(cases):]):
+            queued, n_flags = S.flag_decision_stationary(site, *c)
+            il = "1" if queued else "0"
+            ctx.evaluations += 1
+            ctx.count("flag-decisions:stationary")
+            hyp = c[0] > 0
+            hits["stationary"][0 if hyp else 1] += 1
+            if il != ml or (n_flags > 0) != queued:
+                ctx.disagree("sensor.flags", {"stage": "flag_stationary", "small": c[0], "large": c[1],
+                                              "measured": c[2]}, ml, il + " n_flags=%d" % n_flags)
+            if queued and c[2] == 0:
+                ctx.violate("C05:flag:site-with-zero-measured-rate-queued:stationary" if hyp else SIG_FLAG_STAT,
+                            "a stationary method queued a site for follow-up on its first detection record although the "
+                            "measured rate is 0",
+                            {"stage": "flag_stationary", "small": c[0], "large": c[1], "measured": c[2]})
+        ctx.extra.setdefault("hypothesis_hit_rate", {}).update({
+            "C05_flag_needs_detection (instant threshold none or > 0)":
+                {"hits": hits["mobile"][0], "misses": hits["mobile"][1]},
+            "C05_flag_needs_detection_stationary (small-window threshold > 0)":
+                {"hits": hits["stationary"][0], "misses": hits["stationary"][1]}})
     finally:
         world.cleanup()
+
+
+# ------------------------------------------------------------------------------------------------
+# extracted table: who writes the coverage store, who calls the spatial check (regenerated every run)
+# ------------------------------------------------------------------------------------------------
+EXPECTED_WRITERS = {("virtual_world/emission_types/emission.py", "__init__", "assign"),
+                    ("virtual_world/emission_types/emission.py", "check_spatial_cov", "setitem")}
+EXPECTED_CALLERS = {("virtual_world/component.py", "get_detectable_emissions")}
+
+
+def coverage_writers_table(ctx):
+    """AST scan of /repo/LDAR_Sim/src: every place that assigns / mutates `_tech_spat_covs` and every call
+    of `check_spatial_cov`.  C05_sticky_whole_life models the life cycle as steps that do not touch the
+    store; this table is the checked tie for that (a new writer re-opens the obligation)."""
+    import ast
+    from harness import shim
+
+    writers, callers, literal = set(), set(), set()
+    mutators = {"update", "pop", "clear", "setdefault", "popitem", "__setitem__", "__delitem__"}
+    for root, dirs, files in os.walk(shim.REPO_SRC):
+        dirs[:] = [d for d in dirs if d not in ("__pycache__",)]
+        for f in files:
+            if not f.endswith(".py"):
+                continue
+            path = os.path.join(root, f)
+            rel = os.path.relpath(path, shim.REPO_SRC)
+            src = open(path).read()
+            if "_tech_spat_covs" not in src and "check_spatial_cov" not in src:
+                continue
+            tree = ast.parse(src)
+
+            def is_store(node):
+                return isinstance(node, ast.Attribute) and node.attr == "_tech_spat_covs"
+
+            def visit(node, fn):
+                if isinstance(node, (ast.FunctionDef, ast.AsyncFunctionDef)):
+                    fn = node.name
+                if isinstance(node, (ast.Assign, ast.AugAssign, ast.AnnAssign, ast.Delete)):
+                    targets = node.targets if isinstance(node, (ast.Assign, ast.Delete)) else [node.target]
+                    for t in targets:
+                        for sub in ast.walk(t):
+                            if is_store(sub):
+                                kind = "setitem" if any(isinstance(x, ast.Subscript) and is_store(x.value)
+                                                        for x in ast.walk(t)) else "assign"
+                                writers.add((rel, fn, kind))
+                if isinstance(node, ast.Call) and isinstance(node.func, ast.Attribute):
+                    if node.func.attr in mutators and is_store(node.func.value):
+                        writers.add((rel, fn, "call:" + node.func.attr))
+                    if node.func.attr == "check_spatial_cov":
+                        callers.add((rel, fn))
+                if isinstance(node, ast.Constant) and isinstance(node.value, str) and "_tech_spat_covs" in node.value:
+                    literal.add((rel, fn))
+                for ch in ast.iter_child_nodes(node):
+                    visit(ch, fn)
+
+            visit(tree, "<module>")
+    callers = {c for c in callers if not c[0].startswith("testing")}
+    ctx.extra["coverage_store_writers"] = sorted(map(list, writers))
+    ctx.extra["spatial_check_callers"] = sorted(map(list, callers))
+    for name, got, want in (("table: writers of Emission._tech_spat_covs", writers, EXPECTED_WRITERS),
+                            ("table: callers of Emission.check_spatial_cov", callers, EXPECTED_CALLERS)):
+        ctx.obligations.append(name)
+        if got == want and not literal:
+            ctx.discharged.append(name)
+        else:
+            ctx.broke(name, "found %s (string mentions %s), expected %s" % (sorted(got), sorted(literal), sorted(want)))
 
 
 # ------------------------------------------------------------------------------------------------
@@ -411,14 +580,23 @@ def flag_stage(ctx):
 KEY_COLS = ("Site ID", "Equipment", "Component", "Emissions ID")
 
 
-def wholerun_config(rng):
+TRACE_HOOK = "harness.adapters.sensor_trace:install"
+
+
+def wholerun_config(rng, with_fix=False):
     """baseline + a normal program + the same program with every method's spatial coverage 0 + the
-    same program with every method's MDL 1e9"""
+    same program with every method's MDL 1e9; with_fix: also a stationary screening method + its
+    follow-up, normal and with spatial coverage 0"""
     import copy
     from harness import wholerun as W
 
     cfg = W.make_config(rng, n_sims=1, ndays=rng.choice([120, 200, 400]))
     base = cfg["methods"]
+    # more variety than the generator's defaults for what C05 is about
+    base["OGI"]["spatial"] = rng.choice([1.0, 0.5, 0.75])
+    base["OGI"]["temporal"] = rng.choice([1.0, 0.5])
+    base["AIR"]["spatial"] = rng.choice([1.0, 0.5])
+    base["OGI_FU"]["spatial"] = rng.choice([1.0, 0.75])
     methods = {}
     progs = [{"name": "P_none", "methods": []}]
     for tag, patch in (("N", {}), ("Z", {"spatial": 0.0}), ("B", {"mdl": 1e9})):
@@ -431,10 +609,174 @@ def wholerun_config(rng):
             methods[tag + "_" + m] = d
             names.append(tag + "_" + m)
         progs.append({"name": "P_" + tag, "methods": names})
+    if with_fix:
+        for tag, patch in (("NF", {}), ("ZF", {"spatial": 0.0})):
+            names = []
+            for m in ("FIX", "OGI_FU2"):
+                d = copy.deepcopy(base[m])
+                d.update(patch)
+                if "follow_up" in d:
+                    d["follow_up"]["preferred_method"] = tag + "_OGI_FU2"
+                    if with_fix == "default":   # the shipped default of rolling_average.small_window_threshold
+                        d["follow_up"]["rolling"]["small_window_threshold"] = 0.0
+                methods[tag + "_" + m] = d
+                names.append(tag + "_" + m)
+            progs.append({"name": "P_" + tag, "methods": names})
     cfg["methods"] = methods
     cfg["programs"] = progs
     cfg["baseline"] = "P_none"
+    cfg["pre_run_hook"] = TRACE_HOOK
     return cfg
+
+
+def trace_survey_oracle(events, methods_cfg):
+    """the per-survey clauses of C05 on the surveys of a real simulation, from the events of
+    harness/adapters/sensor_trace.py plus the worker's own "tag" / "detect" events.
+    Returns (findings [(signature, what, detail)], stats)."""
+    F = []
+    stats = {"surveys": 0, "cov_calls": 0, "sticky_reuse": 0, "tags": 0, "detects": 0, "visible": 0,
+             "hidden_spatial": 0, "hidden_off": 0, "hidden_temporal": 0, "detected_units": 0,
+             "undetected_nonzero_units": 0, "surveys_with_visible": 0}
+    stored = {}     # (k, method) -> outcome fixed by the first roll
+    pend_cov = {}   # method -> cov entries since its last report
+    pend_t = {}     # (method, k) -> temporal outcome
+    pend_det = {}   # method -> detect events since its last report
+    last_rep = {}   # (day, method, site) -> {"units": {(eqg, comp): (vr, measured)}, "level", "mdl"}
+
+    def add(sig, what, detail):
+        if len(F) < 40:
+            F.append((sig, what, detail))
+
+    for e in events:
+        kind = e[0]
+        if kind == "c05-error":
+            add("C05:wholerun:trace-wrapper-error", "observation wrapper raised", {"error": e[1]})
+        elif kind == "c05cov":
+            (_, day, m, site, eqg, comp, k, eid, rep, start, rate, before, after, emitting) = e
+            stats["cov_calls"] += 1
+            key = (k, m)
+            if key in stored:
+                stats["sticky_reuse"] += 1
+                if before != stored[key] or after != stored[key]:
+                    add("C05:wholerun:sticky:spatial-coverage-changed-during-run",
+                        "stored spatial coverage of an emission for a method changed during the simulation",
+                        {"day": day, "method": m, "emission": [site, eqg, comp, eid, rep, start],
+                         "first": stored[key], "before": before, "after": after})
+            else:
+                if before is not None:
+                    add("C05:wholerun:sticky:spatial-coverage-changed-during-run",
+                        "first observed check finds an outcome stored that no observed roll produced",
+                        {"day": day, "method": m, "emission": [site, eqg, comp, eid, rep, start], "before": before})
+                stored[key] = after
+            if after is None or (before is not None and after != before):
+                add("C05:wholerun:sticky:spatial-coverage-changed-during-run",
+                    "check_spatial_cov replaced / did not store an outcome",
+                    {"day": day, "method": m, "before": before, "after": after})
+            pend_cov.setdefault(m, []).append(e)
+        elif kind == "c05tcov":
+            pend_t[(e[2], e[3])] = e[4]
+        elif kind == "detect":
+            pend_det.setdefault(e[5], []).append(e)
+        elif kind == "c05rep":
+            (_, day, m, site, level, mdl_f, st, sm, units, ret) = e
+            stats["surveys"] += 1
+            mdl = Fraction(mdl_f)
+            covs = pend_cov.pop(m, [])
+            vis = []
+            for c in covs:
+                (_, cday, _, csite, ceqg, ccomp, k, eid, rep, start, rate, before, after, emitting) = c
+                if csite != site or cday != day:
+                    add("C05:wholerun:scope:emission-of-another-site-examined",
+                        "a survey examined an emission outside the surveyed site", {"survey": [day, m, site], "cov": c})
+                t = pend_t.pop((m, k), None)
+                if after == 1 and emitting and t == 1:
+                    vis.append(c)
+                    stats["visible"] += 1
+                elif after != 1:
+                    stats["hidden_spatial"] += 1
+                elif not emitting:
+                    stats["hidden_off"] += 1
+                else:
+                    stats["hidden_temporal"] += 1
+                if t is not None and not (after == 1 and emitting):
+                    add("C05:wholerun:visible:temporal-roll-for-uncovered-or-silent-emission",
+                        "temporal roll drawn for an emission outside spatial coverage / not emitting",
+                        {"survey": [day, m, site], "cov": c})
+            if vis:
+                stats["surveys_with_visible"] += 1
+
+            def vrate(pred):
+                return sum((Fraction(c[10]) for c in vis if pred(c)), Fraction(0))
+
+            scale = "component" if level.startswith("component") else "equipment-group" if level.startswith("equip") else "site"
+            unit_list = []
+            if scale == "site":
+                unit_list.append((("site", None), vrate(lambda c: True), st, sm))
+            else:
+                for (ueqg, ucomp, ut, um) in units:
+                    if scale == "component" and ucomp is not None:
+                        vr = vrate(lambda c, g=ueqg, cc=ucomp: c[4] == g and c[5] == cc)
+                    else:
+                        vr = vrate(lambda c, g=ueqg: c[4] == g)
+                    unit_list.append(((ueqg, ucomp), vr, ut, um))
+            rep_units = {}
+            any_ok = False
+            for (uk, vr, ut, um) in unit_list:
+                rep_units[uk] = (vr, um)
+                mm_ = Fraction(um)
+                d = {"survey": [day, m, site], "unit": list(uk), "visible_rate": float(vr), "reported_true": ut,
+                     "measured": um, "mdl": mdl_f}
+                if mm_ < 0:
+                    add("C05:wholerun:measured:negative", "negative measured rate in a simulation", d)
+                if mm_ != 0 and vr < mdl:
+                    add("C05:wholerun:mdl:nonzero-measured-below-mdl:" + scale,
+                        "non-zero measured rate although the visible rate of the unit is below the MDL", d)
+                if Fraction(ut) != vr:
+                    add("C05:wholerun:scale:reported-true-rate-differs-from-visible-rate:" + scale,
+                        "reported true rate of a unit is not the summed rate of its visible emissions", d)
+                if vr >= mdl and mm_ == 0 and vr > 0 and methods_cfg.get(m, {}).get("qe") == [0.0, 0.0]:
+                    add("C05:wholerun:threshold:rate-at-or-above-mdl-not-detected:" + scale,
+                        "unit at or above the MDL measured 0 (no quantification error configured)", d)
+                if vr >= mdl:
+                    any_ok = True
+                    if vr > 0:
+                        stats["detected_units"] += 1
+                elif vr > 0:
+                    stats["undetected_nonzero_units"] += 1
+            site_vr = vrate(lambda c: True)
+            if Fraction(st) != site_vr:
+                add("C05:wholerun:scale:reported-true-rate-differs-from-visible-rate:site-total",
+                    "site true rate of a survey report is not the summed rate of the visible emissions",
+                    {"survey": [day, m, site], "reported": st, "visible_rate": float(site_vr)})
+            if Fraction(sm) < 0 or (Fraction(sm) != 0 and not any_ok):
+                add("C05:wholerun:mdl:nonzero-measured-below-mdl:site-total",
+                    "site measured rate negative / non-zero although no unit reaches the MDL",
+                    {"survey": [day, m, site], "measured": sm, "mdl": mdl_f})
+            for dv in pend_det.pop(m, []):
+                stats["detects"] += 1
+                (_, dday, dsite, deqg, dcomp, _, deid, drep) = dv
+                ok = any(c[3] == dsite and c[4] == deqg and c[5] == dcomp and c[7] == deid and c[8] == drep for c in vis)
+                if not ok or site_vr < mdl or dday != day:
+                    add("C05:wholerun:record:detection-record-for-invisible-emission",
+                        "a sensor wrote a detection record for an emission that was not visible in that survey / below the MDL",
+                        {"survey": [day, m, site], "detect": dv})
+            last_rep[(day, m, site)] = {"units": rep_units, "scale": scale, "mdl": mdl}
+        elif kind == "tag":
+            (_, day, site, eqg, comp, company, rdelay, n_act) = e
+            stats["tags"] += 1
+            r = last_rep.get((day, company, site))
+            d = {"tag": e}
+            if r is None:
+                add("C05:wholerun:tag:tag-without-survey-report", "tag request without a survey report of that method, site and day", d)
+            elif r["scale"] != "component":
+                add("C05:wholerun:tag:non-component-scale-method-tags", "a method that is not component-scale tagged", d)
+            else:
+                u = r["units"].get((eqg, comp))
+                if u is None or u[0] < r["mdl"] or not Fraction(u[1]) > 0:
+                    add("C05:wholerun:tag:component-below-mdl-tagged",
+                        "tag request for a component whose visible rate is below the MDL / whose measured rate is 0",
+                        dict(d, unit=None if u is None else [float(u[0]), u[1]], mdl=float(r["mdl"])))
+    return F, stats
 
 
 def compare_with_baseline(res, prog):
@@ -475,21 +817,34 @@ def compare_with_baseline(res, prog):
     return len(rows), diffs
 
 
-def wholerun_one(seed):
+def wholerun_one(args):
     from harness import wholerun as W
 
-    cfg = wholerun_config(random.Random(seed))
+    seed, with_fix = args
+    cfg = wholerun_config(random.Random(seed), with_fix)
     res = W.run_config(cfg, debug=True, processes=1, trace=True)
     try:
-        out = {"seed": seed, "rc": res.rc, "log": res.log[-1500:] if res.rc else "", "programs": {}}
+        out = {"seed": seed, "with_fix": with_fix, "rc": res.rc, "log": res.log[-1500:] if res.rc else "",
+               "programs": {}, "small_thr": None}
+        if with_fix:
+            out["small_thr"] = cfg["methods"]["ZF_FIX"]["follow_up"]["rolling"]["small_window_threshold"]
         if res.rc == 0:
-            for prog in ("P_N", "P_Z", "P_B"):
+            for p in cfg["programs"]:
+                prog = p["name"]
+                if prog == "P_none":
+                    continue
                 n, diffs = compare_with_baseline(res, prog)
-                tags = 0
+                events = []
                 for t in res.trace:
                     if t.get("prog") == prog:
-                        tags += sum(1 for e in t["events"] if e and e[0] in ("tag", "fuq"))
-                out["programs"][prog] = {"rows": n, "diffs": diffs[:20], "n_diffs": len(diffs), "tag_fuq_events": tags}
+                        events = t["events"]
+                findings, stats = trace_survey_oracle(events, cfg["methods"])
+                out["programs"][prog] = {
+                    "rows": n, "diffs": diffs[:20], "n_diffs": len(diffs),
+                    "tag_events": sum(1 for e in events if e and e[0] == "tag"),
+                    "fuq_events": sum(1 for e in events if e and e[0] == "fuq"),
+                    "nonzero_reports": sum(1 for e in events if e and e[0] == "c05rep" and e[7] != 0),
+                    "findings": findings, "stats": stats}
         return out
     finally:
         res.cleanup()
@@ -497,30 +852,59 @@ def wholerun_one(seed):
 
 def wholerun_oracle(ctx):
     if not WHOLERUN_PRESENT:
-        ctx.note("whole-run metamorphic stage skipped: harness/wholerun.py absent")
+        ctx.note("whole-run stages skipped: harness/wholerun.py absent")
         return
     from concurrent.futures import ThreadPoolExecutor
 
     n = ctx.pick(2, 10)
-    seeds = [ctx.rng.randrange(1 << 30) for _ in range(n)]
+    # every other configuration with a stationary screening method; the first one with the shipped
+    # default small-window threshold 0.0 (whole-run reproduction of the known finding)
+    jobs = [(ctx.rng.randrange(1 << 30), "default" if i == 0 else i % 2 == 0) for i in range(n)]
     with ThreadPoolExecutor(max_workers=min(n, max(1, (os.cpu_count() or 2) // 2), 8)) as ex:
-        outs = list(ex.map(wholerun_one, seeds))
+        outs = list(ex.map(wholerun_one, jobs))
     for out in outs:
         ctx.count("wholerun:configs")
-        inp = {"stage": "wholerun", "seed": out["seed"]}
+        inp = {"stage": "wholerun", "seed": out["seed"], "with_fix": out["with_fix"]}
         if out["rc"] != 0:
             raise core.InfraError("whole-run worker failed (seed %d): %s" % (out["seed"], out["log"]))
         ctx.traces += 1
+        # ---- metamorphic clause
         for prog, what, sig in (("P_Z", "spatial coverage 0", "C05:wholerun:zero-coverage-program-differs-from-baseline"),
-                                ("P_B", "MDL 1e9", "C05:wholerun:unreachable-mdl-program-differs-from-baseline")):
-            r = out["programs"][prog]
+                                ("P_B", "MDL 1e9", "C05:wholerun:unreachable-mdl-program-differs-from-baseline"),
+                                ("P_ZF", "spatial coverage 0 (stationary screening)",
+                                 "C05:wholerun:zero-coverage-program-differs-from-baseline")):
+            r = out["programs"].get(prog)
+            if r is None:
+                continue
             ctx.evaluations += r["rows"]
             ctx.count("wholerun:rows-compared", r["rows"])
-            if r["n_diffs"] or r["tag_fuq_events"]:
+            if r["n_diffs"] or r["tag_events"] or r["nonzero_reports"]:
                 ctx.violate(sig, "program whose methods all have %s: emission records differ from the baseline's "
-                            "(or tag / follow-up events were produced)" % what,
+                            "(or tags / non-zero measured rates were produced)" % what,
                             dict(inp, program=prog, n_diffs=r["n_diffs"], diffs=r["diffs"],
-                                 tag_fuq_events=r["tag_fuq_events"]))
+                                 tag_events=r["tag_events"], nonzero_reports=r["nonzero_reports"]))
+            if r["fuq_events"]:
+                # follow-up requests although every measured rate of the program is 0
+                if prog == "P_ZF" and out["small_thr"] is not None and out["small_thr"] <= 0:
+                    ctx.count("wholerun:known:stationary-flags-with-zero-measured-rate")
+                    ctx.violate(SIG_FLAG_STAT, "a stationary method with zero spatial coverage (every measured rate 0) "
+                                "queued sites for follow-up in a whole simulation",
+                                dict(inp, program=prog, fuq_events=r["fuq_events"], small_window_threshold=out["small_thr"]))
+                else:
+                    ctx.violate("C05:wholerun:follow-up-requested-with-zero-measured-rate",
+                                "a program whose measured rates are all 0 queued follow-up surveys",
+                                dict(inp, program=prog, fuq_events=r["fuq_events"]))
+        # ---- per-survey clauses on every program of the run
+        for prog, r in out["programs"].items():
+            for (sig, what, detail) in r["findings"]:
+                ctx.violate(sig, what, dict(inp, program=prog, finding=detail))
+            st = r["stats"]
+            ctx.evaluations += st["surveys"]
+            for k, v in st.items():
+                ctx.count("wholerun:survey-oracle:" + k, v)
+            if st["surveys_with_visible"]:
+                ctx.nontrivial.add(("wholerun-surveys", prog, out["seed"] % 5, min(st["tags"], 3), min(st["detects"], 3),
+                                    min(st["hidden_spatial"], 3), min(st["hidden_temporal"], 3), min(st["hidden_off"], 3)))
         rn = out["programs"]["P_N"]
         if rn["n_diffs"]:
             ctx.count("wholerun:configs-where-normal-program-differs-from-baseline")
@@ -528,7 +912,8 @@ def wholerun_oracle(ctx):
         if len(ctx.samples) < 6:
             ctx.sample({"wholerun_seed": out["seed"], "rows": rn["rows"], "normal_program_diffs": rn["n_diffs"],
                         "zero_coverage_diffs": out["programs"]["P_Z"]["n_diffs"],
-                        "mdl_1e9_diffs": out["programs"]["P_B"]["n_diffs"]})
+                        "mdl_1e9_diffs": out["programs"]["P_B"]["n_diffs"],
+                        "survey_oracle_P_N": rn["stats"]})
 
 
 # ------------------------------------------------------------------------------------------------
@@ -541,6 +926,7 @@ def run(ctx):
                 "non-zero units, rate == MDL present, shift < -100, tags); whole-run stage: generated configurations, "
                 "rows of emissions_summary.csv of zero-coverage / MDL-1e9 programs vs baseline")
     core.lean_stage(ctx, MODULE, FILE, drivers=["drv_sensor"])
+    coverage_writers_table(ctx)
     component_stage(ctx)
     flag_stage(ctx)
     wholerun_oracle(ctx)
@@ -556,16 +942,24 @@ def replay(ctx, data):
     if stage == "component":
         world = S.build_world(random.Random(inp["world_seed"]))
         try:
-            case = gen_case(world, random.Random(inp["case_seed"]))
+            exact = inp.get("exact", True)
+            case = gen_case(world, random.Random(inp["case_seed"]), exact=exact)
             results = run_case(world, case, inp["case_seed"])
-            lines = ["reset"] + [r[0] for r in results]
-            replies = core.LeanDriver("drv_sensor").run(lines)[1:]
+            if exact:
+                lines = ["reset"] + [r[0] for r in results]
+                replies = core.LeanDriver("drv_sensor").run(lines)[1:]
+            else:
+                replies = [None] * len(results)
             for idx, ((req, rep, res), ml) in enumerate(zip(results, replies)):
                 oracle_survey(ctx, res, {"survey_index": idx})
                 mark = "<-- recorded failing survey" if idx == inp.get("survey_index") else ""
                 print(f"survey {idx} {res.name} scale={res.code} site={res.si} day={res.day} mdl={res.mdl} {mark}")
-                print("  impl :", rep)
-                print("  model:", ml, "" if ml == rep else "   <-- DISAGREE")
+                if exact:
+                    print("  impl :", rep)
+                    print("  model:", ml, "" if ml == rep else "   <-- DISAGREE")
+                else:
+                    print("  unsnapped: site true %r measured %r tags %r" % (
+                        res.report.site_true_rate, res.report.site_measured_rate, res.rec.tags))
         finally:
             world.cleanup()
     elif stage == "flag":
@@ -575,22 +969,41 @@ def replay(ctx, data):
             got = S.flag_decision(site, inp["inst"], inp["thr"], inp["measured"])
             print("follow-up candidate:", got)
             if got and inp["measured"] == 0:
-                ctx.violate("C05:flag:site-with-zero-measured-rate-enters-follow-up", "", inp)
+                hyp = inp["inst"] is None or inp["inst"] > 0
+                ctx.violate("C05:flag:site-with-zero-measured-rate-enters-follow-up" if hyp else SIG_FLAG_INST, "", inp)
+        finally:
+            world.cleanup()
+    elif stage == "flag_stationary":
+        world = S.build_world(random.Random(1))
+        try:
+            site = world.fresh()._sites[0]
+            got = S.flag_decision_stationary(site, inp["small"], inp["large"], inp["measured"])
+            print("queued for follow-up, sites_flagged:", got)
+            if got[0] and inp["measured"] == 0:
+                ctx.violate(SIG_FLAG_STAT if inp["small"] <= 0 else "C05:flag:site-with-zero-measured-rate-queued:stationary",
+                            "", inp)
         finally:
             world.cleanup()
     elif stage == "wholerun":
-        out = wholerun_one(inp["seed"])
+        out = wholerun_one((inp["seed"], inp.get("with_fix", False)))
         for prog, r in out["programs"].items():
-            print(prog, "rows", r["rows"], "diffs", r["n_diffs"], "tag/fuq events", r["tag_fuq_events"])
+            print(prog, "rows", r["rows"], "diffs", r["n_diffs"], "tags", r["tag_events"], "fuq", r["fuq_events"],
+                  "non-zero reports", r["nonzero_reports"], "survey-oracle findings", len(r["findings"]))
             for d in r["diffs"][:5]:
                 print("   ", d)
-        for prog, sig in (("P_Z", "zero-coverage"), ("P_B", "unreachable-mdl")):
-            r = out["programs"].get(prog, {"n_diffs": 1, "tag_fuq_events": 0})
-            if r["n_diffs"] or r["tag_fuq_events"]:
-                ctx.violate("C05:wholerun:" + sig, "", inp)
+            for f in r["findings"][:5]:
+                print("   ", f)
+                ctx.violate(f[0], f[1], dict(inp, program=prog))
+        for prog in ("P_Z", "P_B", "P_ZF"):
+            r = out["programs"].get(prog)
+            if r and (r["n_diffs"] or r["tag_events"] or r["nonzero_reports"]):
+                ctx.violate("C05:wholerun:program-differs-from-baseline", prog, inp)
+            if r and r["fuq_events"]:
+                known = prog == "P_ZF" and out["small_thr"] is not None and out["small_thr"] <= 0
+                ctx.violate(SIG_FLAG_STAT if known else "C05:wholerun:follow-up-requested-with-zero-measured-rate", prog, inp)
     else:
         dis = data.get("correspondence_disagreements") or []
-        if dis and dis[0].get("input", {}).get("stage") in ("component", "flag") and "input" not in data:
+        if dis and dis[0].get("input", {}).get("stage") in ("component", "flag", "flag_stationary") and "input" not in data:
             return replay(ctx, {"input": dis[0]["input"]}) or 1
         print("replay: broken obligation / correspondence:", data.get("broken_obligations"), dis)
         return 1
